@@ -202,7 +202,9 @@ def mandatory_sites(seq, rule, exception=None):
     out = []
     for i in range(1, len(seq)):
         if any(_match_alt(seq, i, a) for a in _FREE[rule]):
-            if exception and any(_match_alt(seq, i, _complete(_strip(a))) for a in EXCEPTIONS[exception]):
-                continue      # possibly blocked (even with partial context): optional
+            if exception and any(_match_alt(seq, i, _complete(_strip(a))) or
+                                 _match_alt(seq, i, _complete({k: v for k, v in a.items() if k != "P1'"}))
+                                 for a in EXCEPTIONS[exception]):
+                continue      # possibly blocked when part of the context (P2 or P1') comes from another branch: optional
             out.append(i)
     return out
